@@ -1,5 +1,6 @@
 import PartituraModel.Wire
 import PartituraModel.Model.ScoreMidi
+import PartituraModel.Model.ScoreMidiSpec
 
 open Wire Model Model.Ticks Model.MidiPair Model.MidiModes Model.ScoreMidi
 
@@ -35,6 +36,16 @@ def pPart : P PartIn := do
   let ms ← list (pPair nat nat)
   let notes ← list (do let s ← nat; let d ← nat; let p ← nat; let v ← opt int; pure (s, d, p, v))
   pure ⟨g, base, tempos, ks, ms, notes⟩
+
+def pSrc : P PartSrc := do
+  let g ← nat
+  let base ← pBase
+  let tempos ← list (pPair nat nat)
+  let ks ← list (pPair nat str)
+  let ms ← list (pPair nat nat)
+  let notes ← list (do let s ← nat; let d ← nat; let p ← nat; let tp ← bool; let tn ← opt nat; let v ← opt int
+                       pure ((⟨s, d, p, tp, tn⟩ : ScoreNote), v))
+  pure ⟨g, base, tempos, ks, ms, notes.map (·.1), notes.map (·.2)⟩
 
 def pMsg : P Msg := do
   let t ← tok
@@ -81,7 +92,7 @@ def insNote (x : Int × Nat × Int × Int) : List (Int × Nat × Int × Int) →
 
 def fmtPartOut (e : Nat × PartOut) : String :=
   let p := e.2
-  fmtTuple [fmtNat e.1, fmtOpt fmtNat p.group,
+  fmtTuple [fmtNat e.1, fmtOpt fmtNat p.group, fmtNat p.divs,
     fmtList (fun n => fmtTuple [fmtInt n.1, fmtNat n.2.1, fmtInt n.2.2.1, fmtInt n.2.2.2]) (p.notes.foldr insNote []),
     fmtList (fun t => fmtTuple [fmtInt t.1, fmtInt t.2.1, fmtInt t.2.2]) p.timeSigs,
     fmtList (fun k => fmtTuple [fmtInt k.1, k.2]) p.keySigs]
@@ -108,6 +119,24 @@ def insTempo (x : Int × Nat) : List (Int × Nat) → List (Int × Nat)
   | [] => [x]
   | a :: as => if x.1 < a.1 || (x.1 == a.1 && x.2 < a.2) then x :: a :: as else a :: insTempo x as
 
+def insEvS (x : Int × String) : List (Int × String) → List (Int × String)
+  | [] => [x]
+  | a :: as => if x.1 < a.1 || (x.1 == a.1 && x.2 < a.2) then x :: a :: as else a :: insEvS x as
+
+/-- events sorted by tick, then by their text -/
+def fmtEvsSorted (l : List (Int × Msg)) : String :=
+  fmtList (fun e : Int × String => s!"{e.1}:{e.2}") ((l.map fun e => (e.1, fmtMsg e.2)).foldr insEvS [])
+
+def ltRow (a b : Rat × Rat × Nat) : Bool :=
+  a.1 < b.1 || (a.1 == b.1 && (a.2.1 < b.2.1 || (a.2.1 == b.2.1 && a.2.2 < b.2.2)))
+
+def insRow (x : Rat × Rat × Nat) : List (Rat × Rat × Nat) → List (Rat × Rat × Nat)
+  | [] => [x]
+  | a :: as => if ltRow x a then x :: a :: as else a :: insRow x as
+
+def fmtRows (l : List (Rat × Rat × Nat)) : String :=
+  fmtList (fun r => fmtTuple [fmtRat r.1, fmtRat r.2.1, fmtNat r.2.2]) (l.foldr insRow [])
+
 def handle (ts : List String) : String :=
   match ts with
   | "exp" :: rest =>
@@ -115,9 +144,32 @@ def handle (ts : List String) : String :=
                       pure (mode, a, mn, vel, ps)) rest).bind fun (mode, a, mn, vel, ps) =>
       (saveScoreMidi mode a mn vel ps).map fun e =>
         s!"{e.ppq}|{fmtTracks e.tracks}|{fmtTracks (e.tracks.map (deltasFrom 0))}"
+  | "exps" :: rest =>
+    -- the same from the note objects: tie chains merged by the model
+    orErr <| (run (do let mode ← nat; let a ← pAnac; let mn ← nat; let vel ← nat; let ps ← list pSrc
+                      pure (mode, a, mn, vel, ps)) rest).bind fun (mode, a, mn, vel, ps) =>
+      (saveScore mode a mn vel ps).map fun e =>
+        s!"{e.ppq}|{fmtTracks e.tracks}|{fmtTracks (e.tracks.map (deltasFrom 0))}"
+  | "spec" :: rest =>
+    -- the vocabulary of the theorems (Model/ScoreMidiSpec.lean), not the model of the exporter: what every track
+    -- must hold (notes routed to it, key / time signature and tempo events) and the notes in musical time
+    orErr <| (run (do let mode ← nat; let a ← pAnac; let mn ← nat; let vel ← nat; let ps ← list pPart
+                      pure (mode, a, mn, vel, ps)) rest).bind fun (mode, a, mn, vel, ps) =>
+      (origin a (ps.map (·.base))).bind fun o =>
+      (mapToTrackChannel mode (noteKeys ps)).bind fun tcs =>
+      (maxList (tcs.map (·.1))).map fun m =>
+        let p := exportPpq ps mn
+        let ktc := (noteKeys ps).zip tcs
+        let trs := List.range (m + 1)
+        let tsPart := if a = .timeSigChange then "-" else fmtList (fun tr => fmtEvsSorted (trackTS a p o ktc ps tr)) trs
+        s!"{fmtRat o}|{fmtList (fun tr => fmtList fmtRec ((routedTo p o vel ktc ps tr).foldr insRec [])) trs}|{fmtList (fun tr => fmtEvsSorted (trackKS p o ktc ps tr)) trs}|{tsPart}|{fmtList (fun tr => fmtEvsSorted (trackTempo p o ps tr)) trs}|{fmtRows (scoreRows ps)}"
+  | "rows" :: rest =>
+    -- the notes of an import in musical time (`importedRows`): origin, mode, ticks, tracks
+    orErr <| (run (do let o ← rat; let mode ← nat; let ticks ← nat; let trs ← list pTrack; pure (o, mode, ticks, trs)) rest).bind
+      fun (o, mode, ticks, trs) => (loadScoreMidi mode ticks trs).map fun r => fmtRows (importedRows o r)
   | "imp" :: rest =>
-    orErr <| (run (do let mode ← nat; let trs ← list pTrack; pure (mode, trs)) rest).bind fun (mode, trs) =>
-      (loadScoreMidi mode trs).map fun r =>
+    orErr <| (run (do let mode ← nat; let ticks ← nat; let trs ← list pTrack; pure (mode, ticks, trs)) rest).bind fun (mode, ticks, trs) =>
+      (loadScoreMidi mode ticks trs).map fun r =>
         s!"{fmtList fmtPartOut r.parts}|{fmtList (fun t => fmtTuple [fmtInt t.1, fmtNat t.2]) (r.tempos.foldr insTempo [])}"
   | "perf" :: rest =>
     orErr <| (run (list pTrack) rest).map fun trs =>
